@@ -175,9 +175,13 @@ def compare_model(defn, m, out, events, keys, rng, numeric=True, npoints=3, cyth
                 fp = codec.full_point(sy, [float(v) for v in pt])
                 flat = val.reshape(-1)
                 bad = None
-                for idx, (g, p) in enumerate(zip(flat, polys)):
-                    e, sc = codec.peval(sy, p, fp, scale=True)
-                    if not (abs(g - e) <= NUM_TOL * (sc + abs(g)) + 1e-300):
+                # an entry whose terms cancel (exactly 0 for the specification) comes back from floating-point evaluation
+                # as a rounding residue of the size of the terms that cancelled: the tolerance of every entry therefore
+                # also has a floor relative to the largest entry scale of the same object at this point
+                evs = [codec.peval(sy, p, fp, scale=True) for p in polys]
+                floor = NUM_TOL * max([float(sc) for _e, sc in evs] + [0.0])
+                for idx, (g, (e, sc)) in enumerate(zip(flat, evs)):
+                    if not (abs(g - e) <= NUM_TOL * (sc + abs(g)) + floor + 1e-300):
                         bad = (idx, float(g), float(e))
                         break
                 if bad:
